@@ -34,10 +34,59 @@ def esc_stream(table, tier, rng, specials, extra=""):
         return x
 
     def oracle(case, got):
-        # the implementation's escaped text alone: decodable back to the source by the table's own rows is the model's column;
-        # here: no special character survives unescaped (checked per table by the property's own oracle)
+        f = case.split()
+        src = "".join(chr(int(x)) for x in f[1:])
+        out = decode_runes(got.split(" | ")[0])
+        if table == "roff":
+            q = "bol"          # the control-line machine of Proofs/EscapeProofs.v, on the implementation's output
+            for ch in out:
+                if q in ("bol", "mid"):
+                    if ch == "\\":
+                        q = "bs"
+                    elif ch == '"' or (q == "bol" and ch in ".'"):
+                        return "escaped text can be read as roff syntax at %r in %r" % (ch, out[:40])
+                    else:
+                        q = "bol" if ch == "\n" else "mid"
+                elif q == "bs":
+                    if ch in "e&~":
+                        q = "mid"
+                    elif ch == "(":
+                        q = "par"
+                    else:
+                        return "backslash not followed by an exporter escape in %r" % out[:40]
+                elif q == "par":
+                    q = "par2" if ch in "dc" else "bad"
+                elif q == "par2":
+                    q = "mid" if ch == "q" else "bad"
+                if q == "bad":
+                    return "unknown escape in %r" % out[:40]
+            if q not in ("bol", "mid"):
+                return "escaped text ends inside an escape: %r" % out[:40]
+        elif table == "latex":
+            back, k, BS = "", 0, chr(92)
+            forms = [(BS + "textbackslash{}", BS), (BS + "^{}", "^"), (BS + "~{}", "~")] + [(BS + c, c) for c in "{}%&$#_"]
+            while k < len(out):
+                for f_, c_ in forms:
+                    if out.startswith(f_, k):
+                        back += c_
+                        k += len(f_)
+                        break
+                else:
+                    ch = out[k]
+                    if ch in BS + "{}$&#^_%":
+                        return "TeX-special character %r outside an escape form in %r" % (ch, out[:40])
+                    back += chr(0xa0) if ch == "~" else ch
+                    k += 1
+            if back != src:
+                return "escaped text does not decode to the source: %r" % out[:40]
+        elif table == "html":
+            import html as H
+            if re.search(r"[<>\"']", out) or re.search(r"&(?!(amp|lt|gt|#34|#39);)", out):
+                return "markup-significant character unescaped in %r" % out[:40]
+            if H.unescape(out) != src:
+                return "escaped text does not decode to the source"
         return None
-    return Stream("S-esc-" + table, "esc", cases, exhaustive=True, nontrivial=lambda c: len(c.split()) > 2,
+    return Stream("S-esc-" + table, "esc", cases, oracle=oracle, exhaustive=True, nontrivial=lambda c: len(c.split()) > 2,
                   describe="escape.%s / html.EscapeString on all strings <= %d over the table's special characters and images (%d cases), every code point below U+0300 (all code points in steps of 7 in the thorough tier), random strings" % (table, T(tier, 3, 4), exh))
 
 
@@ -397,9 +446,45 @@ class C07(E2EProp):
     NEUT = ["t", ".Sm w", ".P", "\\\" comment"]
 
     @staticmethod
+    def location_oracle(case, a):
+        """every diagnostic designates, in an existing file, the line on which the reported macro line begins (for lines
+        coming from a user macro body: the outermost invocation, which is not inside a macro definition)"""
+        parts = case.split(" | ")
+        files = {"w/d.frundis": decode_runes(parts[0].split(" ", 1)[1]) if " " in parts[0] else ""}
+        for p in parts[1:]:
+            if p.startswith("F ") and "=" in p:
+                n, c = p[2:].split("=", 1)
+                files[decode_runes(n)] = decode_runes(c)
+        for d in a[2]:
+            m = re.match(r"frundis: ([^:]+):(\d+):(in user macro `\.([^']*)':)?([^:]*): ", d)
+            if not m:
+                continue
+            fname, ln, um, mac = m.group(1), int(m.group(2)), m.group(4), m.group(5)
+            if fname not in files:
+                return "diagnostic names a file that is not a source: %s" % d[:100]
+            lines = files[fname].split("\n")
+            if ln < 1 or ln > len(lines):
+                return "diagnostic designates line %d of %s, which has %d lines" % (ln, fname, len(lines))
+            text = lines[ln - 1]
+            depth = sum(1 for l in lines[:ln - 1] if l.startswith(".#de")) - sum(1 for l in lines[:ln - 1] if l == ".#.")
+            if depth > 0 and text not in (".#.",) and not text.startswith(".#de"):
+                return "diagnostic designates line %d of %s, inside a macro definition (not the invocation): %s" % (ln, fname, d[:100])
+            if um is not None:
+                if not re.match(r"\.\s*" + re.escape(um) + r"(\s|$)", text):
+                    return "diagnostic says line %d invokes .%s but the line is %r" % (ln, um, text[:40])
+            elif mac and mac not in ("End Of File",) and text.startswith(".") and not re.match(r"\.\s*" + re.escape(mac.split()[0]) + r"(\s|$)", text):
+                return "diagnostic reports %s at line %d but the line is %r" % (mac, ln, text[:40])
+        return None
+
+    @staticmethod
     def oracle(case, go):
         a = e2e.parse_go(go)
-        if a[0] != "ok" or not case.startswith("x0 "):
+        if a[0] != "ok":
+            return None
+        r = C07.location_oracle(case, a)
+        if r:
+            return r
+        if not case.startswith("x0 "):
             return None
         doc = decode_runes(case.split(" | ")[0].split(" ", 1)[1])
         lines = doc.split("\n")
@@ -999,22 +1084,24 @@ class C12(Prop):
         exh = len(cases)
         # printed macro lines: name, argument vectors, layouts (blanks, continuation, comment, final newline or not, following block)
         argal = ["a", " ", "\"", "\\", "", "\u2003", "\xa0", "é", ".", "-"]
-        vecs = [[x] for x in gen.all_strings(argal, 2)] + [[x, y] for x in gen.all_strings(argal, 1) for y in gen.all_strings(argal, 1)] + [["a", "", "b c", '"q"']]
+        vecs = [[x] for x in gen.all_strings(argal, 2)] + [[x, y] for x in gen.all_strings(argal, 1) for y in gen.all_strings(argal, 1)] + [["a", "", "b c", '"q"'], ['a""'], ['x""""y'], ['s=""', 'b'], ['a"b""c']]
         self.meta = {}
         rt = []
         for v in vecs:
-            for lay in range(6):
+            for lay in range(7):
                 for tail in ("", "\n", "\n.Nx y\n", "\ntext\n", "\n\n.Nx\n"):
                     parts = [self.pr_arg(a) for a in v]
-                    sep = [" ", "  ", " \\\n", " \\\n  ", " ", " "][lay]
+                    sep = [" ", "  ", " \\\n", " \\\n  ", " ", " ", " "][lay]
                     line = ".Nm" + "".join(sep + p for p in parts)
                     if lay == 4:
                         line += " \\\" comment"
                     if lay == 5:
                         line = ".\\\" c\n" + line
+                    if lay == 6:
+                        line = "\n" + line          # the source begins with an empty line
                     c = gen.runes(line + tail)
                     rt.append(c)
-                    self.meta[c] = (v, 2 if lay == 5 else 1, tail)
+                    self.meta[c] = (v, 2 if lay in (5, 6) else 1, tail)
         for _ in range(T(tier, 1000, 20000)):
             toks = [rng.choice([".Sm", ".Ch", "a", "b c", "\\e", "\\&", "\\*[v]", "\\$1", "\\$@", "\\$[n]", "\\$?[f]", "\"q r\"", "\"\"", "\\\" c", "\n", "\n", " ", "  ", "\\\n", ".\n", "\\~", "é"]) for _ in range(rng.randint(1, 40))]
             cases.append(gen.runes("".join(toks)))
